@@ -53,7 +53,7 @@ def run(ctx):
     os.makedirs(ind)
     json.dump(behaviours, open(os.path.join(ind, "behaviours.json"), "w"))
     # 3. real code
-    res = ctx.go_driver("c10mpt", "TestDriver", env={"VERIF_IN": ind, "VERIF_RANDOM": 1200 if q else 20000},
+    res = ctx.go_driver("c10mpt", "TestDriver", env={"VERIF_IN": ind, "VERIF_RANDOM": 1200 if q else 20000, "VERIF_DEEP": 4 if q else 40},
                         timeout=3000)
     ctx.absorb(res)
     # 4. TLC judges the recorded traces against the abstract specification
